@@ -30,6 +30,8 @@ def SchemaExercised : Bool := Gen.schema.all fun c => (childSlots c).all fun s =
 /-- `__eq__` compares every structural slot and nothing else but `_abc_impl` (a class constant) and `attributes` (assigned nowhere in the package: stays `None`) -/
 def SchemaEq : Bool := Gen.schema.all fun c => (c.slots.all fun p => c.compared.contains p.1) &&
   (c.compared.all fun a => (c.slots.map (·.1)).contains a || ["_abc_impl", "attributes"].contains a)
+/-- `replace_child` substitutes exactly the given child in every child slot (names wrapped in `AttributedName` included) -/
+def SchemaReplace : Bool := Gen.schema.all fun c => (childSlots c).all fun s => c.replaced.contains s
 /-- no slot held a mixture of nodes and non-nodes -/
 def SchemaNoMixed : Bool := Gen.schema.all fun c => c.slots.all fun p => !(p.2.startsWith "mixed")
 
@@ -38,6 +40,7 @@ theorem schema_walk : SchemaWalk = true := by decide +kernel
 theorem schema_exercised : SchemaExercised = true := by decide +kernel
 theorem schema_eq : SchemaEq = true := by decide +kernel
 theorem schema_no_mixed : SchemaNoMixed = true := by decide +kernel
+theorem schema_replace : SchemaReplace = true := by decide +kernel
 
 /-! ## the bridge from the schema to the hypotheses of the tree theory -/
 
